@@ -72,13 +72,6 @@ def lsize (xs : List LInstr) : Nat := codeSize (xs.map (·.instr))
 
 def li (loc : Loc) (op : Op) (arg : Nat := 0) : LInstr := ⟨{ op := op, arg := arg }, loc⟩
 
-def intConst (kd : RKind) (v : Int) : Val :=
-  match kd with
-  | .num .float32 => .f32 (Float32.ofInt v)
-  | .num .float64 => .f64 (Float.ofInt v)
-  | .num k => .int k (wrap k v)
-  | _ => .int .int v
-
 def binSimpleOp : String → Option (List Op)
   | "!=" => some [.equal, .not_]
   | "in" => some [.in_]
